@@ -8,5 +8,6 @@ import (
 	_ "verifharness/props/c12"
 	_ "verifharness/props/c13"
 	_ "verifharness/props/c14"
+	_ "verifharness/props/c15"
 	_ "verifharness/props/c19"
 )
